@@ -141,6 +141,12 @@ fn positions(text: &str, all: bool) -> Vec<(u32, u32)> {
             }
         }
     }
+    // columns past the end of a line that would be offsets inside the following lines
+    for (li, l) in lines.iter().enumerate() {
+        for k in [2u32, 3, 7, 11, 19] {
+            v.push((li as u32, l.len() as u32 + k));
+        }
+    }
     let n = lines.len() as u32;
     v.push((n, 0));
     v.push((n + 1, 0));
@@ -225,7 +231,32 @@ impl Family for QueryTotal {
         let mut queries = 0u64;
         let mut reported = std::collections::BTreeMap::<String, u32>::new();
         for t in &texts {
+            let line_lens: Vec<u32> = t.split('\n').map(|l| l.len() as u32).collect();
             for (line, col) in positions(t, !quick) {
+                // a column past the end of its line is no position of the next line: whatever is answered
+                // there is what is answered at the end of the line (or nothing)
+                if let Some(len) = line_lens.get(line as usize) {
+                    if col > *len && (line as usize) + 1 < line_lens.len() {
+                        queries += 1;
+                        let far = guarded(|| hover_type(path, t, line, col).ok());
+                        let end = guarded(|| hover_type(path, t, line, *len).ok());
+                        if let (Ok(Some(f)), Ok(e)) = (&far, &end) {
+                            if Some(f) != e.as_ref() {
+                                let n = reported.entry("past-line-end".to_string()).or_insert(0);
+                                *n += 1;
+                                if *n <= 1 {
+                                    rep.findings.push(Finding {
+                                        property: "C20",
+                                        class: "hover.column-past-line-end-answers-for-another-line".into(),
+                                        site: "request=hover".into(),
+                                        detail: format!("seed {} {} at {}:{} (the line has {} bytes): hover says {} but at the end of the line it says {:?}", si, mode, line, col, len, f, e),
+                                        replay: json!({"kind": "query", "request": "hover", "text": t, "line": line, "col": col}),
+                                    });
+                                }
+                            }
+                        }
+                    }
+                }
                 for req in ["hover", "dot", "colon"] {
                     queries += 1;
                     let r = match req {
